@@ -30,12 +30,13 @@ Inductive kind :=
 | KBounds      (* bounds of the reactions (Reaction.bounds / lower_bound / upper_bound / knock_out, Model.medium) *)
 | KObjective   (* objective expression of the solver problem *)
 | KDirection   (* objective direction *)
-| KConsVars    (* extra variables / constraints of the solver problem and their attributes *)
+| KConsVars    (* which extra variables / constraints the solver problem has *)
+| KConsAttr    (* bounds / coefficients of those extra variables and constraints *)
 | KGenes       (* gene functional flags *)
 | KContent     (* reactions / metabolites / genes / groups lists and cross references *)
 | KSolver.     (* solver interface / configuration object (model.solver = ...) *)
 
-Definition all_kinds := [KBounds; KObjective; KDirection; KConsVars; KGenes; KContent; KSolver].
+Definition all_kinds := [KBounds; KObjective; KDirection; KConsVars; KConsAttr; KGenes; KContent; KSolver].
 
 Definition kind_eq_dec : forall a b : kind, {a = b} + {a <> b}.
 Proof. decide equality. Defined.
@@ -44,23 +45,24 @@ Definition kind_eqb (a b : kind) : bool := if kind_eq_dec a b then true else fal
 Definition val := Z.
 
 Record store := mkStore { s_bounds : val; s_objective : val; s_direction : val; s_consvars : val;
-                          s_genes : val; s_content : val; s_solver : val }.
+                          s_consattr : val; s_genes : val; s_content : val; s_solver : val }.
 
 Definition get (k : kind) (r : store) : val :=
   match k with
   | KBounds => s_bounds r | KObjective => s_objective r | KDirection => s_direction r
-  | KConsVars => s_consvars r | KGenes => s_genes r | KContent => s_content r | KSolver => s_solver r
+  | KConsVars => s_consvars r | KConsAttr => s_consattr r | KGenes => s_genes r | KContent => s_content r | KSolver => s_solver r
   end.
 
 Definition set (k : kind) (v : val) (r : store) : store :=
   match k with
-  | KBounds => mkStore v (s_objective r) (s_direction r) (s_consvars r) (s_genes r) (s_content r) (s_solver r)
-  | KObjective => mkStore (s_bounds r) v (s_direction r) (s_consvars r) (s_genes r) (s_content r) (s_solver r)
-  | KDirection => mkStore (s_bounds r) (s_objective r) v (s_consvars r) (s_genes r) (s_content r) (s_solver r)
-  | KConsVars => mkStore (s_bounds r) (s_objective r) (s_direction r) v (s_genes r) (s_content r) (s_solver r)
-  | KGenes => mkStore (s_bounds r) (s_objective r) (s_direction r) (s_consvars r) v (s_content r) (s_solver r)
-  | KContent => mkStore (s_bounds r) (s_objective r) (s_direction r) (s_consvars r) (s_genes r) v (s_solver r)
-  | KSolver => mkStore (s_bounds r) (s_objective r) (s_direction r) (s_consvars r) (s_genes r) (s_content r) v
+  | KBounds => mkStore v (s_objective r) (s_direction r) (s_consvars r) (s_consattr r) (s_genes r) (s_content r) (s_solver r)
+  | KObjective => mkStore (s_bounds r) v (s_direction r) (s_consvars r) (s_consattr r) (s_genes r) (s_content r) (s_solver r)
+  | KDirection => mkStore (s_bounds r) (s_objective r) v (s_consvars r) (s_consattr r) (s_genes r) (s_content r) (s_solver r)
+  | KConsVars => mkStore (s_bounds r) (s_objective r) (s_direction r) v (s_consattr r) (s_genes r) (s_content r) (s_solver r)
+  | KConsAttr => mkStore (s_bounds r) (s_objective r) (s_direction r) (s_consvars r) v (s_genes r) (s_content r) (s_solver r)
+  | KGenes => mkStore (s_bounds r) (s_objective r) (s_direction r) (s_consvars r) (s_consattr r) v (s_content r) (s_solver r)
+  | KContent => mkStore (s_bounds r) (s_objective r) (s_direction r) (s_consvars r) (s_consattr r) (s_genes r) v (s_solver r)
+  | KSolver => mkStore (s_bounds r) (s_objective r) (s_direction r) (s_consvars r) (s_consattr r) (s_genes r) (s_content r) v
   end.
 
 (* ------------------------------------------------------------------ HistoryManager *)
@@ -140,7 +142,10 @@ Inductive sk :=
 | Continue
 | TryFinally (a b : sk)
 | TryCatch (a h : sk)
-| OnCopy (a : sk).              (* a acts on model.copy(), not on the model *)
+| OnCopy (a : sk)               (* a acts on model.copy(), not on the model *)
+| Scope (a : sk).               (* body of a called function: its `return` ends the call, not the caller *)
+
+Definition seqs (l : list sk) : sk := fold_right Seq Skip l.
 
 Inductive outcome := ONormal | OReturn | ORaise | OBreak | OContinue.
 
@@ -216,6 +221,9 @@ Fixpoint exec (o : oracle) (k : sk) (s : state) : state * outcome :=
   | OnCopy a =>
       let (s1, r) := exec o a s in
       (mkState (res s) (ctx s) (saved s) (hist s1), r)
+  | Scope a =>
+      let (s1, r) := exec o a s in
+      (s1, match r with OReturn => ONormal | _ => r end)
   end.
 
 (* ------------------------------------------------------------------ the static check sk_ok *)
@@ -237,9 +245,23 @@ Record astate := mkA { a_dirty : kset; a_lv : nat -> kset * kset; a_sv : list (n
 Definition sv_eqb (p q : nat * kind) : bool := Nat.eqb (fst p) (fst q) && kind_eqb (snd p) (snd q).
 Definition sv_mem (p : nat * kind) (l : list (nat * kind)) : bool := existsb (sv_eqb p) l.
 
+(* tabulated copies of a set / of the level table (same function pointwise, see norm_k_eq and
+   norm_lv_eq in Proofs.v): without them the closures built by nested joins share nothing and
+   evaluating sk_ok takes time exponential in the size of the skeleton *)
+Definition norm_k (s : kset) : kset :=
+  let b1 := s KBounds in let b2 := s KObjective in let b3 := s KDirection in let b4 := s KConsVars in
+  let b5 := s KGenes in let b6 := s KContent in let b7 := s KSolver in let b8 := s KConsAttr in
+  fun k => match k with
+           | KBounds => b1 | KObjective => b2 | KDirection => b3 | KConsVars => b4
+           | KGenes => b5 | KContent => b6 | KSolver => b7 | KConsAttr => b8
+           end.
+Definition norm_lv (lv : nat -> kset * kset) : nat -> kset * kset :=
+  let t := map (fun i => let p := lv i in (norm_k (fst p), norm_k (snd p))) (seq 0 8) in
+  fun i => match nth_error t i with Some p => p | None => lv i end.
+
 Definition join (a b : astate) : astate :=
-  mkA (fun k => a_dirty a k || a_dirty b k)
-      (fun i => (fun k => fst (a_lv a i) k && fst (a_lv b i) k, fun k => snd (a_lv a i) k || snd (a_lv b i) k))
+  mkA (norm_k (fun k => a_dirty a k || a_dirty b k))
+      (norm_lv (fun i => (fun k => fst (a_lv a i) k && fst (a_lv b i) k, fun k => snd (a_lv a i) k || snd (a_lv b i) k)))
       (filter (fun p => sv_mem p (a_sv b)) (a_sv a)).
 
 Definition levels (d : nat) := seq 0 d.
@@ -255,11 +277,13 @@ Definition leqb (d : nat) (a b : astate) : bool :=
 
 (* Raw edits of a resource count as undone by an earlier recorded edit of the same resource in
    an open block only for resources that are snapshotted as a whole: the objective and its
-   direction (set_objective's undo re-installs both), and the extra variables/constraints (the
-   undo removes the added objects together with whatever was edited on them).  Bounds, gene
-   flags and content are recorded per object, so a raw edit of them is never considered covered. *)
+   direction (set_objective's undo re-installs both) and the attributes of the extra
+   variables/constraints (add_cons_vars' undo removes the added objects together with whatever was
+   edited on them; assumption A2: such edits target objects added in an open block).  Bounds, gene
+   flags, content and the set of extra variables/constraints itself (solver.add / solver.remove)
+   are recorded per object, so a raw edit of them is never considered covered. *)
 Definition coverable (k : kind) : bool :=
-  match k with KObjective | KDirection | KConsVars => true | _ => false end.
+  match k with KObjective | KDirection | KConsAttr => true | _ => false end.
 
 Definition upd_lv (lv : nat -> kset * kset) (i : nat) (l : kset * kset) : nat -> kset * kset :=
   fun j => if Nat.eqb j i then l else lv j.
@@ -409,6 +433,11 @@ Fixpoint flow (k : sk) (d : nat) (a : astate) : option exits :=
           end
       end
   | OnCopy p => Some (mkX (Some a) (Some a) (Some a) (Some a) (Some a))
+  | Scope p =>
+      match flow p d a with
+      | None => None
+      | Some x => Some (mkX (ojoin (x_n x) (x_ret x)) None (x_rai x) (x_brk x) (x_cnt x))
+      end
   end.
 
 Definition a0 : astate := mkA kempty (fun _ => (kempty, kempty)) [].
@@ -428,7 +457,7 @@ Definition sk_ok (k : sk) : bool :=
 (* which exits are reachable and dirty: used by the check to explain a failing skeleton *)
 Definition sk_report (k : sk) : list (nat * list kind) :=
   match flow k 0 a0 with
-  | None => [(9, [])]
+  | None => [(9, all_kinds)]
   | Some x =>
       let d e := match e with None => [] | Some a => filter (a_dirty a) all_kinds end in
       filter (fun p => negb (match snd p with [] => true | _ => false end))
